@@ -25,6 +25,9 @@ type c10snap struct {
 func runC10(w *World) {
 	w.NoStall = true
 	w.MaxSteps = 60000
+	if w.Chance(1, 5, "slow-logger") {
+		w.SlowLogger(300)
+	}
 	action := Pick(w, "action", "close", "deletepeer", "close", "accept-error", "double-close", "close", "deletepeer", "close-before-serve", "close+deletepeer", "close+deletepeer")
 	w.Sample["action"] = action
 	if action == "close-before-serve" {
